@@ -44,6 +44,9 @@ partial def loop {σ : Type} (h : IO.FS.Stream) (out : IO.FS.Stream) (st : σ)
     return ()
   let (st', ans) := step st line
   out.putStrLn ans
+  -- one answer per request, visible at once: the check's stall watchdog attributes a silent driver to the
+  -- request it is working on
+  out.flush
   loop h out st' step
 
 end NaijaVerif.Driver
